@@ -368,4 +368,12 @@ def run(ctx):
     # recovery of one requestor handle must not discard what its sibling handles are waiting for (shared pending table)
     from . import c04
     c04.pending_map_discipline(ctx, F, "C12.D3")
+    # "the full configured number of attempts": the budget iterator yields exactly max_attempts attempts (count rules of C13.D3)
+    from . import c13, sweeps
+    nx = F.one_body(r"^<selium::keep_alive::backoff_strategy::BackoffStrategyIter as core::iter::traits::iterator::Iterator>::next$")
+    ii = F.one_body(r"^<selium::keep_alive::backoff_strategy::BackoffStrategy as core::iter::traits::collect::IntoIterator>::into_iter$")
+    ctx.touch(nx, ii)
+    c13.count_shape(ctx, F, nx, ii)
+    # "messages published after recovery are delivered": the re-registered subscriber is a new entry behind the dead one in the fan-out
+    sweeps.fanout_sweep(ctx, F, "C12.D6", "poll_flush")
     d4(ctx, F)
